@@ -77,6 +77,15 @@ def _init(world_spec, alphabet, monitors, with_calls, key_calls, pre_hook):
 
 
 def _work(hist_idx: tuple):
+    try:
+        return _work_inner(hist_idx)
+    except BaseException as e:  # never let an unpicklable exception hang the pool
+        import traceback
+
+        return hist_idx, ("crash", f"{type(e).__name__}: {e}\n{traceback.format_exc()[-1500:]}")
+
+
+def _work_inner(hist_idx: tuple):
     w = _G["world"]
     A = _G["alphabet"]
     history = tuple(A[i] for i in hist_idx)
@@ -150,6 +159,10 @@ def explore(
             trans = 0
             chunk = max(1, len(frontier) // (NPROC * 8))
             for hist_idx, out in own_pool.imap(_work, frontier, chunksize=chunk):
+                if isinstance(out, tuple) and out and out[0] == "crash":
+                    from mc.evidence import HarnessError
+
+                    raise HarnessError(f"explorer worker crashed after history {[alphabet[i] for i in hist_idx]}: {out[1]}")
                 for oi, ok, exname, hk, viols, act in out:
                     trans += 1
                     ex.activations.update(act)
